@@ -7,6 +7,7 @@ pub mod c02;
 pub mod c03;
 pub mod c04;
 pub mod c05;
+pub mod c05b;
 pub mod c06;
 pub mod responder;
 pub mod c07;
@@ -48,6 +49,7 @@ pub fn run(id: &str, tier: Tier) -> i32 {
         "C19" => c19::run(tier),
         "C20" => c20::run(tier),
         "SMOKE" => smoke::run(),
+        "SMOKE2" => smoke::run_two_browses(&std::env::var("VARIANT").unwrap_or_default()),
         _ => {
             eprintln!("harness error: no check for {id}");
             2
